@@ -23,6 +23,7 @@ fn main() {
         "book" => book::run(&args),
         "magic" => pure::magic(&args),
         "movevalue" => pure::movevalue(&args),
+        "perft" => pure::perft(&args),
         "tt-seq" => tt::seq(&args),
         "tt-hammer" => tt::hammer(&args),
         "search" => search::run(&args),
